@@ -245,7 +245,7 @@ theorem parElasticityOfT_frame (vars : Row) (t : Rat) (normalized : Bool) (d : R
   | error e => rfl
   | ok old =>
     have hp := oldValue_ok c par old hnd ho
-    simp only [Run.bind]
+    simp only [Run.bind, show Generated.C18.parFinallyResets = true from by decide, if_true]
     have hbody : Around c true par (parTry vars t d old c par).1 := by
       unfold parTry
       refine Run.bind_inv _ _ _ (Around_wrPar c true par _ c (Around_self c true par old hp)) ?_
@@ -709,7 +709,7 @@ theorem responseWorkerT_frame (w : Worker) (hw : WorkerOK w) (y0 : Option Row) (
   | error e => rfl
   | ok old =>
     have hp := oldValue_ok c par old hnd ho
-    simp only [Run.bind]
+    simp only [Run.bind, show Generated.C18.respFinallyRestores = true from by decide, if_true]
     rw [tryFinally_state]
     have hbody : Around c y0.isNone par (respTry w y0 normalized d old c par).1 := by
       unfold respTry
